@@ -2043,5 +2043,96 @@ def _fetch_many_case(E, mode, q, name, expect_cas, oneshot):
             E.oblige("%s/post@raise(BaseException:Sync)%s" % (sid, E.case_suffix), s, sync(E, s, me), func=q)
 
 
+# ------------------------------------------------------------------ constructors: every option reaches the field the methods read
+
+def verify_client_ctor(E, prop="C16"):
+    """Client.__init__ / PooledClient.__init__: each constructor argument is stored in the field of its own name (the contracts of
+    the methods start from an object with exactly those fields); server goes through normalize_server_spec; a missing serde becomes
+    LegacyWrappingSerde(serializer, deserializer); a str key_prefix is stored as its ASCII bytes, anything but bytes/str is refused;
+    the connection starts closed; PooledClient builds its pool from _create_client and the three pool options."""
+    PCq = "pymemcache.client.base:PooledClient"
+    for cls in (C, PCq):
+        q = cls + ".__init__"
+        fi = extract.func(q)
+        params = [a.arg for a in fi.node.args.args][1:]
+        for plabel in ("bytes-prefix", "str-prefix", "bad-prefix"):
+            for slabel in ("serde-given", "serde-missing"):
+                E.case_suffix = "/%s,%s" % (plabel, slabel)
+                st = State()
+                vals = {p_: OpaqueV(z3.Const("ctor_" + p_, Py), tag=p_) for p_ in params}
+                vals["socket_keepalive"] = NONE
+                pt = z3.String("ctor_prefix_text")
+                vals["key_prefix"] = BytesV(pt) if plabel == "bytes-prefix" else (StrV(pt) if plabel == "str-prefix" else IntV(z3.Int("ctor_bad_prefix")))
+                if slabel == "serde-missing":
+                    vals["serde"] = NONE
+                st.ghost["ctor_log"] = []
+
+                def norm(E_, s, args, kwargs, selfv, site):
+                    return [Outcome("return", s, OpaqueV(z3.Function("normalized_server", Py, Py)(E_.inject(args[0], s)), tag="server"))]
+
+                def legacy(E_, s, args, kwargs, selfv, site):
+                    s.ghost["ctor_log"].append(("legacy", list(args), dict(kwargs)))
+                    return [Outcome("return", s, OpaqueV(z3.Const("legacy_serde", Py), tag="legacy"))]
+
+                def poolctor(E_, s, args, kwargs, selfv, site):
+                    s.ghost["ctor_log"].append(("pool", list(args), dict(kwargs)))
+                    return [Outcome("return", s, OpaqueV(z3.Const("the_pool", Py), tag="pool"))]
+                E.contracts[B + ":normalize_server_spec"] = norm
+                E.contracts["pymemcache.serde:LegacyWrappingSerde"] = legacy
+                E.contracts["pymemcache.pool:ObjectPool"] = poolctor
+                E.hooks["platform.system"] = lambda E_, s, a, kw: [Ev(s, StrV(z3.StringVal("Linux")))]
+                me = st.new_obj(cls, {})
+                pre = "%s/%s" % (prop, short(q))
+                T = lambda b: z3.BoolVal(bool(b))
+                for o in E.run_function(q, st, [vals[p_] for p_ in params], {}, selfv=me):
+                    s = o.st
+                    f = s.heap[me.ref]
+                    if plabel == "bad-prefix":
+                        E.oblige("%s/a-key_prefix-that-is-neither-bytes-nor-str-is-refused%s" % (pre, E.case_suffix), s,
+                                 T(o.kind == "raise" and o.val.cls == "TypeError"), func=q)
+                        continue
+                    if o.kind != "return":
+                        if plabel == "str-prefix" and o.val.cls in ("UnicodeEncodeError", "UnicodeError"):
+                            continue            # a non-ASCII str prefix is refused by .encode('ascii')
+                        E.oblige("%s/constructor-accepts-valid-options%s" % (pre, E.case_suffix), s, T(False), func=q, meta={"raised": o.val.cls})
+                        continue
+                    for p_ in params:
+                        if p_ in ("server", "serde", "serializer", "deserializer", "key_prefix", "max_pool_size", "pool_idle_timeout", "lock_generator"):
+                            continue
+                        E.oblige("%s/option-%s-is-stored-in-the-field-of-its-own-name%s" % (pre, p_, E.case_suffix), s, T(f.get(p_) is vals[p_]), func=q,
+                                 meta={"option": p_})
+                    sv = f.get("server")
+                    E.oblige("%s/server-is-stored-normalised%s" % (pre, E.case_suffix), s,
+                             T(isinstance(sv, OpaqueV) and sv.tag == "server"), func=q)
+                    kp = f.get("key_prefix")
+                    if isinstance(kp, BytesV):
+                        E.oblige("%s/key_prefix-is-stored-as-bytes(ascii-of-a-str-prefix)%s" % (pre, E.case_suffix), s, kp.t == pt, func=q)
+                    else:
+                        E.oblige("%s/key_prefix-is-stored-as-bytes(ascii-of-a-str-prefix)%s" % (pre, E.case_suffix), s, T(False), func=q)
+                    sd = f.get("serde")
+                    log = s.ghost["ctor_log"]
+                    if slabel == "serde-given":
+                        lg = [x for x in log if x[0] == "legacy"]
+                        ok = (sd is vals["serde"]) or (isinstance(sd, OpaqueV) and sd.tag == "legacy" and len(lg) == 1)
+                        E.oblige("%s/the-given-serde-is-used(or-the-legacy-wrapper-if-it-is-falsy)%s" % (pre, E.case_suffix), s, T(ok), func=q)
+                    else:
+                        lg = [x for x in log if x[0] == "legacy"]
+                        ok = isinstance(sd, OpaqueV) and sd.tag == "legacy" and len(lg) == 1 and len(lg[0][1]) == 2 and lg[0][1][0] is vals["serializer"] \
+                            and lg[0][1][1] is vals["deserializer"]
+                        E.oblige("%s/no-serde:LegacyWrappingSerde(serializer,deserializer)%s" % (pre, E.case_suffix), s, T(ok), func=q)
+                    if cls == C:
+                        E.oblige("%s/the-connection-starts-closed%s" % (pre, E.case_suffix), s, T(isinstance(f.get("sock"), NoneV)), func=q)
+                    else:
+                        pl = [x for x in log if x[0] == "pool"]
+                        ok = len(pl) == 1 and len(pl[0][1]) == 1 and isinstance(pl[0][1][0], FuncV) and getattr(pl[0][1][0], "qualname", "").endswith("._create_client") \
+                            and pl[0][2].get("max_size") is vals["max_pool_size"] and pl[0][2].get("idle_timeout") is vals["pool_idle_timeout"] \
+                            and pl[0][2].get("lock_generator") is vals["lock_generator"] and isinstance(pl[0][2].get("after_remove"), FuncV)
+                        E.oblige("%s/the-pool-is-built-from-_create_client-and-the-three-pool-options%s" % (pre, E.case_suffix), s, T(ok), func=q)
+                for qn in (B + ":normalize_server_spec", "pymemcache.serde:LegacyWrappingSerde", "pymemcache.pool:ObjectPool"):
+                    E.contracts.pop(qn, None)
+                E.hooks.pop("platform.system", None)
+    E.case_suffix = ""
+
+
 from pyvc.sym import guard_units as _guard_units
 _guard_units(globals())
